@@ -75,6 +75,9 @@ Proof.
   unfold set_flags, set_links. apply Sub_map_links; intros l; destruct (at_uid mb u l); reflexivity.
 Qed.
 
+Lemma Sub_set_next s mb n : Sub s (set_next s mb n).
+Proof. now apply Sub_same_links. Qed.
+
 Lemma Sub_reparent s old new s' : reparent s old new = Some s' -> Sub s s'.
 Proof.
   unfold reparent. destruct (old =? new); [intros E; inversion E; apply Sub_refl|].
@@ -86,6 +89,17 @@ Lemma Sub_create s n t s' id : create_mailbox_row s n t = Some (s', id) -> Sub s
 Proof.
   unfold create_mailbox_row. destruct n; [discriminate|]. destruct (find_name s _); [discriminate|].
   intros E. inversion E. now apply Sub_same_links.
+Qed.
+
+Lemma Sub_default_rows s t1 t2 t3 t4 t5 : Sub s (default_rows s t1 t2 t3 t4 t5).
+Proof.
+  unfold default_rows.
+  assert (K : forall l s0, Sub s0 (fold_left (fun s' (nt : str * Z) => match create_mailbox_row s' (fst nt) (snd nt) with
+                                            | Some (s'', _) => s'' | None => s' end) l s0)).
+  { induction l as [|nt r IH]; intros s0; [apply Sub_refl|]. cbn [fold_left].
+    destruct (create_mailbox_row s0 (fst nt) (snd nt)) as [[s1 i]|] eqn:Cr; [|apply IH].
+    eapply Sub_trans; [eapply Sub_create; eauto|apply IH]. }
+  apply K.
 Qed.
 
 Lemma Sub_rename_row s mb new s' : rename_row s mb new = Some s' -> Sub s s'.
@@ -122,7 +136,7 @@ Lemma Sub_uidcopy uids : forall s sel dest next s',
   uidcopy_loop s sel dest uids next = Some s' -> Sub s s'.
 Proof.
   induction uids as [|u r IH]; intros s sel dest next s' H; simpl in H.
-  - inversion H. apply Sub_refl.
+  - inversion H. apply Sub_set_next.
   - destruct (find_link s sel u) as [l|] eqn:F; [|eauto].
     destruct (insert_link s (lk_msg l) dest next _) as [s1|] eqn:I; [|discriminate].
     eapply Sub_trans; [eapply Sub_insert; eauto|eauto].
@@ -133,7 +147,7 @@ Lemma Sub_copy seqs : forall s sel dest next s',
   copy_loop s sel dest seqs next = Some s' -> Sub s s'.
 Proof.
   induction seqs as [|n r IH]; intros s sel dest next s' H; simpl in H.
-  - inversion H. apply Sub_refl.
+  - inversion H. apply Sub_set_next.
   - destruct (nth_error (links_sorted s sel) _) as [l|] eqn:F; [|discriminate].
     destruct (insert_link s (lk_msg l) dest next _) as [s1|] eqn:I; [|discriminate].
     eapply Sub_trans; [eapply Sub_insert; eauto|eauto].
@@ -141,13 +155,14 @@ Proof.
     apply (proj1 (in_sort_by_uid _ _)) in F. unfold links_in in F. apply filter_In in F. tauto.
 Qed.
 
-Lemma Sub_move s msg src dn fl :
-  (exists l, In l (links s) /\ lk_msg l = msg) -> Sub s (fst (move_message s msg src dn fl)).
+Lemma Sub_move s msg src su dn fl :
+  (exists l, In l (links s) /\ lk_msg l = msg) -> Sub s (fst (move_message s msg src su dn fl)).
 Proof.
   intros Hm. unfold move_message. destruct (find_name s dn) as [dm|]; [|apply Sub_refl].
   destruct (mb_id dm =? src); [apply Sub_refl|].
   destruct (insert_link s msg (mb_id dm) _ fl) as [s1|] eqn:I; [|apply Sub_refl].
-  cbn [fst]. eapply Sub_trans; [eapply Sub_insert; eauto|apply Sub_delete].
+  cbn [fst]. eapply Sub_trans; [eapply Sub_insert; eauto|].
+  eapply Sub_trans; [apply Sub_set_next|apply Sub_delete].
 Qed.
 
 Lemma Sub_uidstore_one s sel mode new u : Sub s (uidstore_one s sel mode new u).
@@ -156,11 +171,11 @@ Proof.
   assert (Hm : exists l0, In l0 (links s) /\ lk_msg l0 = lk_msg l)
     by (exists l; split; [eapply find_link_in; eauto|reflexivity]).
   destruct (negb _ && _).
-  - pose proof (Sub_move s (lk_msg l) sel SPAM (fremove NONJUNK (calc_flags (lk_flags l) new mode)) Hm) as X.
-    destruct (move_message _ _ _ _ _) as [s1 ok]. destruct ok; [exact X|apply Sub_set_flags].
+  - pose proof (Sub_move s (lk_msg l) sel u SPAM (fremove NONJUNK (calc_flags (lk_flags l) new mode)) Hm) as X.
+    destruct (move_message _ _ _ _ _ _) as [s1 ok]. destruct ok; [exact X|apply Sub_set_flags].
   - destruct (negb _ && _).
-    + pose proof (Sub_move s (lk_msg l) sel INBOX (fremove JUNK (calc_flags (lk_flags l) new mode)) Hm) as X.
-      destruct (move_message _ _ _ _ _) as [s1 ok]. destruct ok; [exact X|apply Sub_set_flags].
+    + pose proof (Sub_move s (lk_msg l) sel u INBOX (fremove JUNK (calc_flags (lk_flags l) new mode)) Hm) as X.
+      destruct (move_message _ _ _ _ _ _) as [s1 ok]. destruct ok; [exact X|apply Sub_set_flags].
     + apply Sub_set_flags.
 Qed.
 
@@ -222,6 +237,7 @@ Proof.
   - destruct (_ && _); [|exact W]. apply OptCase. intros s' E.
     destruct (create_mailbox_row (d_st d) name t) as [[s1 i]|] eqn:Cr; [|discriminate].
     cbn in E. inversion E. subst. eapply Sub_create; eauto.
+  - destruct (_ && _); [|exact W]. destruct (mboxes (d_st d)); [|exact W]. apply SubCase. apply Sub_default_rows.
   - (* INSERT messages *)
     destruct W as [W1 W2 W3 W4]. unfold store_message. constructor; cbn [d_st d_msgs links next_msg]; auto.
     + intros m Hm. cbn [d_st d_msgs next_msg]. apply in_app_or in Hm. destruct Hm as [Hm|[<-|[]]].
@@ -255,7 +271,7 @@ Proof.
   - apply SubCase. apply Sub_delete.
   - apply SubCase. eapply Sub_trans; [apply Sub_delete|]. now apply Sub_same_links.
   - apply OptCase. intros s' E. eapply Sub_rename_tx; eauto.
-  - apply OptCase. intros s' E. eapply Sub_reparent; eauto.
+  - apply OptCase. intros s' E. eapply Sub_trans; [apply Sub_set_next|eapply Sub_reparent; eauto].
   - destruct (existsb _ _); [exact W|]. destruct W. constructor; auto.
   - destruct W. constructor; auto.
 Qed.
@@ -350,9 +366,10 @@ Qed.
 
 Lemma open_plain d t1 t2 t3 t4 t5 : forallb plain (open_steps d t1 t2 t3 t4 t5) = true.
 Proof.
-  unfold open_steps. destruct (d_file d); [reflexivity|]. cbn [forallb plain andb].
-  rewrite forallb_app. apply andb_true_iff. split; [|reflexivity].
-  apply forallb_forall. intros x H. apply in_map_iff in H. destruct H as (i & <- & _). reflexivity.
+  unfold open_steps. rewrite !forallb_app. apply andb_true_iff. split; [|apply andb_true_iff; split].
+  - destruct (d_file d); reflexivity.
+  - apply forallb_forall. intros x H. apply in_map_iff in H. destruct H as (i & <- & _). reflexivity.
+  - destruct (mboxes (d_st (file_of d))); reflexivity.
 Qed.
 
 Lemma parent_steps_plain ps t : forall s, forallb plain (parent_steps s ps t) = true.
@@ -393,18 +410,15 @@ Qed.
     order that provides all guards *)
 Lemma micro_guards d o : WF d -> guards_along d (micro d o).
 Proof.
-  intros W. destruct o as [t1 t2 t3 t4 t5|f t sh t1 t2 t3 t4 t5|f fl sh|o|n|n]; cbn [micro].
+  intros W. destruct o as [t1 t2 t3 t4 t5|f t sh|f fl sh|o|n|n]; cbn [micro].
   - apply guards_plain, open_plain.
-  - apply guards_app. split; [apply guards_plain, open_plain|].
-    rewrite open_refines. set (d0 := opened d t1 t2 t3 t4 t5).
-    assert (W0 : WF d0) by now apply opened_WF.
-    destruct (ready d0) eqn:Hr; [|exact I].
-    unfold deliver_steps. destruct (find_name (d_st d0) f) as [m|].
+  - destruct (ready d) eqn:Hr; [|exact I].
+    unfold deliver_steps. destruct (find_name (d_st d) f) as [m|].
     + cbn [app]. apply guards_store_and_link; auto. destruct (add_ok _ _); reflexivity.
-    + destruct (create_mailbox_row (d_st d0) f t) as [[s' id]|] eqn:Cr; [|exact I].
+    + destruct (create_mailbox_row (d_st d) f t) as [[s' id]|] eqn:Cr; [|exact I].
       cbn [app guards_along guard]. split; [exact I|].
       rewrite exec_ins_mailbox, Cr by auto. cbn [option_map fst opt_st].
-      pose proof (guards_store_and_link (with_st d0 s') id [] sh
+      pose proof (guards_store_and_link (with_st d s') id [] sh
                     (if add_ok s' id then [MInsDelivery] else [])) as X.
       cbn [d_st with_st] in X. apply X.
       * apply WF_sub; auto. eapply Sub_create; eauto.
